@@ -147,7 +147,7 @@ def check_range(prog: Program, res: Result) -> None:
             res.ob(R, ks == S.UNIT, fi.qualname, "similarity (with its masked stores) stays in [0,1]",
                    f"the keypoint similarity has abstract range {ks} after the masked stores", f"{fi.module.relpath}:{est.lineno}")
     nf = sg.of_name("normalization_factor")
-    res.ob(R, nf in (S.POS,), fi.qualname, "normalisation factor is positive (stddev>0, scale>=0, +spacing)",
+    res.ob(R, S.is_pos(nf), fi.qualname, "normalisation factor is positive (stddev>0, scale>=0, +spacing)",
            f"the normalisation factor has abstract sign {nf}: division by zero / sign flip possible", fi.where, sample={"trace": sg.trace[-10:]})
     res.floor(R, 3)
 
